@@ -58,6 +58,7 @@ class Ctx:
         self.env = dict(env)      # local name -> type
         self.selfinfo = selfinfo  # (class prefix, {attr: type}, {prop: type}, coq args string)
         self.subst = {}           # ast.dump(node) -> (coq, type): array reads `a[i, 0]` bound by a loop pattern
+        self.real = False         # True: a real-number-only function (np.arctan2 / sin / cos / radians allowed)
 
 def const(v, node):
     if isinstance(v, bool): fail(node, "boolean constant")
@@ -163,14 +164,20 @@ def tr(node, cx):
         if is_np(fn, "sqrt") and len(node.args) == 1 and not node.keywords:
             e, t = tr(node.args[0], cx)
             return f"(sqrtT O {to_T(e, t, node)})", T
+        if cx.real and not node.keywords:
+            for np_name, arity, coq in (("arctan2", 2, "atan2R"), ("radians", 1, "radiansR"), ("sin", 1, "sin"), ("cos", 1, "cos")):
+                if is_np(fn, np_name) and len(node.args) == arity:
+                    args = [to_T(*tr(a, cx), node) for a in node.args]
+                    return f"({coq} " + " ".join(args) + ")", T
         name = None
         if isinstance(fn, ast.Name): name = fn.id
         elif isinstance(fn, ast.Attribute) and isinstance(fn.value, ast.Name) and fn.value.id in ("geometry_util", "mask_2d_util"):
             name = fn.attr
         if name in cx.funcs:
             cname, params, ret = cx.funcs[name]
-            if node.args: fail(node, "positional arguments in a call of a translated function")
-            kw = {k.arg: k.value for k in node.keywords}
+            if node.args and (node.keywords or len(node.args) != len(params)):
+                fail(node, "mixed / partial positional arguments in a call of a translated function")
+            kw = {p: a for (p, _), a in zip(params, node.args)} if node.args else {k.arg: k.value for k in node.keywords}
             if set(kw) != {p for p, _ in params}: fail(node, f"arguments of {name} are not exactly {[p for p, _ in params]}")
             args = []
             for p, pt in params:
@@ -179,9 +186,19 @@ def tr(node, cx):
                     if pt == T and t == Z: e = to_T(e, t, node)
                     else: fail(node, f"argument {p} of {name}: expected {pt}, got {t}")
                 args.append(e)
+            if cx.real and name not in REAL_ONLY: cname = f"@{cname} ROps"      # a polymorphic definition used at the reals
+            if (not cx.real) and name in REAL_ONLY: fail(node, "a real-number-only function called from executable code")
             return f"({cname} " + " ".join(args) + ")", ret
         fail(node, "call")
     fail(node, "expression")
+
+REAL_ONLY = set()     # names of the functions emitted over R only (they use arctan2 / sin / cos)
+
+def as_real(txt):
+    """a definition emitted over the section variable O, specialised to ROps (placed after the section)"""
+    import re
+    txt = re.sub(r"\bO\b", "ROps", txt)
+    return re.sub(r"\(trunc ", "(@trunc ROps ", txt)
 
 def strip_doc(body):
     if body and isinstance(body[0], ast.Expr) and isinstance(body[0].value, ast.Constant) and isinstance(body[0].value.value, str):
@@ -213,9 +230,10 @@ def emit(cname, params, ret, body_lines, extra_params=""):
     ps = " ".join(f"({p} : {coq_ty(t)})" for p, t in params)
     return f"Definition {cname} {extra_params}{ps} : {coq_ty(ret)} :=\n  " + "\n  ".join(body_lines) + ".\n"
 
-def tr_straight(fn, cname, params, ret, funcs, selfinfo=None):
+def tr_straight(fn, cname, params, ret, funcs, selfinfo=None, real=False):
     check_args(fn, params if not selfinfo else [], allow_self=bool(selfinfo))
     cx = Ctx(funcs, {} if selfinfo else dict(params), selfinfo)   # a method sees its object's state only as self.<attr>
+    cx.real = real
     body = strip_doc(fn.body)
     if not body or not isinstance(body[-1], ast.Return) or body[-1].value is None: fail(fn, "function does not end in `return expr`")
     lines = lets(body[:-1], cx)
@@ -351,7 +369,7 @@ def tr_gather(fn, cname, params, funcs, mask, dims, total_call):
         ret = VEC
     return emit(cname, params, ret, lines + [expr])
 
-def tr_maskfill(fn, cname, params, funcs, shape):
+def tr_maskfill(fn, cname, params, funcs, shape, real=False):
     """
         MASK = np.full(SHAPE, True)
         <name = expr>*                                   (MASK.shape is SHAPE)
@@ -365,6 +383,7 @@ def tr_maskfill(fn, cname, params, funcs, shape):
     """
     check_args(fn, params)
     cx = Ctx(funcs, dict(params))
+    cx.real = real
     body = strip_doc(fn.body)
     if len(body) < 3 or not (isinstance(body[-1], ast.Return) and isinstance(body[-1].value, ast.Name)):
         fail(fn, "mask-fill: does not end in `return MASK`")
@@ -385,7 +404,7 @@ def tr_maskfill(fn, cname, params, funcs, shape):
             if len(loop.body) != 1: fail(loop, "mask-fill: outer loop body is not the inner loop")
             loop = loop.body[0]
     y, x = vs
-    cxb = Ctx(funcs, dict(cx.env)); cxb.subst = dict(cx.subst)
+    cxb = Ctx(funcs, dict(cx.env)); cxb.subst = dict(cx.subst); cxb.real = real
     cxb.env[y] = Z; cxb.env[x] = Z
     inner = loop.body
     if not inner or not isinstance(inner[-1], ast.If): fail(loop, "mask-fill: inner body does not end in an `if`")
@@ -419,10 +438,19 @@ def tr_class(cls, cnode, attrs, plan, funcs, out):
         out.append(f"(* {cls}.{pname}: line {fn.lineno} *)\n" + txt)
 
 HEADER = """(* GENERATED by /verif/py2v/gen_geometry.py (py2v plug-in) from {src} -- do not edit; regenerated on every run *)
-From Coq Require Import ZArith List Bool.
+From Coq Require Import ZArith List Bool Reals.
 From PAV Require Import Base.NumOps.
 Import ListNotations.
 Local Open Scope Z_scope.
+
+(* the fixed vocabulary of the translation of the real-number-only functions (NumPy's oracle contract):
+   numpy.arctan2(y, x) = the angle of the point (x, y) in (-pi, pi], 0 at the origin;  numpy.radians(d) = d pi / 180;
+   numpy.sin / cos / sqrt = the mathematical functions *)
+Definition atan2R (y x : R) : R :=
+  (if Rlt_dec 0 x then atan (y / x)
+   else if Rlt_dec x 0 then (if Rle_dec 0 y then atan (y / x) + PI else atan (y / x) - PI)
+   else if Rlt_dec 0 y then PI / 2 else if Rlt_dec y 0 then - (PI / 2) else 0)%R.
+Definition radiansR (deg : R) : R := (deg * PI / 180)%R.
 
 (* the fixed vocabulary of the translation: range(n), array shape, array reads (a read outside the array is never reached
    by the translated loops, whose bounds are the array's own shape) *)
@@ -467,17 +495,23 @@ def unannotated(fn):
 def gen_geometry(repo, outdir):
     os.makedirs(outdir, exist_ok=True)
     out = []
+    out_real = []
     funcs = {}
-    def add(tree, name, params, ret, kind="straight", **kw):
+    REAL_ONLY.clear()
+    def add(tree, name, params, ret, kind="straight", real=False, **kw):
         fn = find_def(tree.body, name)
         if not isinstance(fn, ast.FunctionDef): raise Fail(f"py2v: {name} is not a function")
-        if kind == "straight": txt = tr_straight(fn, name, params, ret, funcs)
+        if kind == "straight": txt = tr_straight(fn, name, params, ret, funcs, real=real)
         elif kind == "rowmap": txt = tr_rowmap(fn, name, params, funcs, **kw)
         elif kind == "gather": txt = tr_gather(fn, name, params, funcs, **kw)
-        elif kind == "maskfill": txt = tr_maskfill(fn, name, params, funcs, **kw)
+        elif kind == "maskfill": txt = tr_maskfill(fn, name, params, funcs, real=real, **kw)
         else: raise Fail("py2v: unknown kind " + kind)
         funcs[name] = (name, params, ret)
-        out.append(f"(* {name}: line {fn.lineno} *)\n" + txt)
+        if real:
+            REAL_ONLY.add(name)
+            out_real.append(f"(* {name}: line {fn.lineno} *)\n" + as_real(txt))
+        else:
+            out.append(f"(* {name}: line {fn.lineno} *)\n" + txt)
 
     gu = parse(repo, "autoarray/geometry/geometry_util.py")
     add(gu, "central_pixel_coordinates_1d_from", [("shape_slim", Z)], T)
@@ -504,6 +538,14 @@ def gen_geometry(repo, outdir):
     add(mu, "mask_2d_circular_anti_annular_from",
         S + [("inner_radius", T), ("outer_radius", T), ("outer_radius_2_scaled", T), ("centre", TT)], MASK,
         kind="maskfill", shape="shape_native")
+
+    add(mu, "elliptical_radius_from", [("y_scaled", T), ("x_scaled", T), ("angle", T), ("axis_ratio", T)], T, real=True)
+    add(mu, "mask_2d_elliptical_from", S + [("major_axis_radius", T), ("axis_ratio", T), ("angle", T), ("centre", TT)], MASK,
+        kind="maskfill", real=True, shape="shape_native")
+    add(mu, "mask_2d_elliptical_annular_from",
+        S + [("inner_major_axis_radius", T), ("inner_axis_ratio", T), ("inner_phi", T),
+             ("outer_major_axis_radius", T), ("outer_axis_ratio", T), ("outer_phi", T), ("centre", TT)], MASK,
+        kind="maskfill", real=True, shape="shape_native")
 
     g2u = parse(repo, "autoarray/structures/grids/grid_2d_util.py")
     add(g2u, "grid_2d_slim_via_mask_from", [("mask_2d", MASK), ("pixel_scales", TT), ("origin", TT)], GRID,
@@ -533,7 +575,9 @@ def gen_geometry(repo, outdir):
 
     srcs = ("autoarray/geometry/{geometry_util,geometry_2d,geometry_1d}.py, autoarray/mask/mask_2d_util.py, "
             "autoarray/structures/grids/{grid_2d_util,grid_1d_util}.py")
-    text = HEADER.format(src=srcs) + "\n" + "\n".join(out) + "\n" + FOOTER
+    text = (HEADER.format(src=srcs) + "\n" + "\n".join(out) + "\n" + FOOTER
+            + "\n(* ---- real-number-only definitions (arctan2 / sin / cos: not executable; see Model/C02x.v for the executable form) *)\n"
+            + "\n".join(out_real))
     write_if_changed(os.path.join(outdir, "Gen_geometry.v"), text)
 
 TARGETS = {"geometry": gen_geometry}
